@@ -20,7 +20,7 @@ fn schedule(b: &mut PrimitiveBuilder<Int32Type>, v: &[i32; 4], last_some: bool) 
 // [Some(a), None, Some(b), Some(c), o]: len() == 5, values_slice()[i] == the value for valid slots,
 // validity bit i set <=> slot i is Some (validity_slice() is present because a null was appended).
 // This is the builder *state* contract; `finish` is the separate unit pbuilder_finish_model.
-// @unit name=pbuilder_state_model props=C01 kind=bounded bound=schedule_of_4_appends_5_slots fns=PrimitiveBuilder::append_value,PrimitiveBuilder::append_null,PrimitiveBuilder::append_slice,PrimitiveBuilder::append_option,PrimitiveBuilder::values_slice,PrimitiveBuilder::validity_slice
+// @unit name=pbuilder_state_model props=C01 kind=bounded bound=schedule_of_4_appends_5_slots fns=PrimitiveBuilder::append_value,PrimitiveBuilder::append_null,PrimitiveBuilder::append_slice,PrimitiveBuilder::append_option,PrimitiveBuilder::values_slice,PrimitiveBuilder::validity_slice tier=quick
 #[kani::proof]
 #[kani::unwind(10)]
 #[kani::stub(alloc::fmt::format, stub_format)]
@@ -53,7 +53,7 @@ fn pbuilder_state_model() {
 // Measured in the design phase: 6-minute timeout (finish goes through ArrayData::builder ..
 // build_unchecked and PrimitiveArray::from(ArrayData), whose temporaries drop a DataType inside the
 // callee). Kept as a thorough-tier attempt only if it fits 900 s.
-// @unit name=pbuilder_finish_model props=C01 kind=bounded bound=schedule_of_4_appends_5_slots fns=PrimitiveBuilder::finish tier=thorough timeout=900 mem=10 note=not_confirmed_at_checkpoint
+// @unit name=pbuilder_finish_model props=C01 kind=bounded bound=schedule_of_4_appends_5_slots fns=PrimitiveBuilder::finish timeout=900 mem=10 tier=thorough note=not_confirmed_not_run
 #[kani::proof]
 #[kani::unwind(10)]
 #[kani::stub(alloc::fmt::format, stub_format)]
